@@ -14,7 +14,10 @@ Space (enumerated completely, nothing sampled):
   B  blank fields of width 0..20 x blank values, overflow asterisks of width 1..20, NaN / Infinity as Fortran prints them.
 Oracle: ref/c16ref.judge_real / judge_int (the property statement; large don't-care class for malformed text).
 """
+import contextlib
+import io
 import math
+import os
 
 from mc import core
 from ref import fortnum
@@ -103,6 +106,9 @@ def units(tier):
             us.append(('R', e, n))
     us.append(('R', 'int', 0))
     us.append(('R', 'fixed', 0))
+    # the readers as the file parsers use them, in both orders of (plain readers, Fortran readers) within one process
+    for order in FILE_ORDERS:
+        us.append(('T', order))
     return us
 
 
@@ -421,6 +427,401 @@ def run_R(which, nlen, tier, rec):
     rec.count('replacement_texts', n // 2)
 
 
+# ---------------------------------------------------------------------------------------------------------
+# T: the readers as the file parsers use them.  An initial-conditions file whose variable, porosity and sequence
+# fields hold Fortran-printed texts is parsed (a) through fixed_format_file.parse_string with the incon format table
+# and (b) through t2incon(filename), by a plain-reader object and a Fortran-reader object living in the same process,
+# in both orders.  Oracle: every object gives what ITS OWN read function gives for the text of each cell (reference
+# columns = cumulative widths), whatever was opened before it; for the Fortran readers the cell values are moreover
+# judged by the C16 oracle.  Route (b) runs in a forked child so that 'first in the process' is really first.
+
+FILE_ORDERS = ('plain-first', 'fortran-first')
+FILE_EXP = {'quick': [-100, 0, 300], 'thorough': [-300, -100, -99, -1, 0, 1, 99, 100, 300]}
+FILE_LEN = {'quick': [1, 7], 'thorough': [1, 7]}
+ZEROS = ['0.0000000000000E+00', '-0.0000000000000E+00', '.0000D+00', '0.0', '0.', '-0.0', '0', '+0.0000E+00',
+         '0.0000000000000D+00', '0.0000E 00', '-.0', '0.00000000000000+000', '0 .0', '0.0 E+00']
+FILLER = ['0.1230000000000E+01', '0.4560000000000E+02', '0.7890000000000E+03', '0.1011000000000E+04']
+
+
+def file_texts(tier, width):
+    """Boundary subset of the renderings that fit a field of the given width, with a blank after the sign / before the
+    exponent, plus exact zeros, overflow asterisks, NaN / Infinity and integers."""
+    out, seen = [], set()
+
+    def put(t):
+        if len(t) <= width and t not in seen and R.expect_real(t)[0] != R.ANY:
+            seen.add(t)
+            out.append(t)
+
+    for z in ZEROS:
+        put(z)
+    for sign, digs, e, value in R.real_values(FILE_EXP[tier], FILE_LEN[tier]):
+        for c in R.e_renderings(value, len(digs)):
+            put(c)
+            m = R.exponent_mark(c)
+            s0 = 1 if c[0] in '+-' else 0
+            put(c[:s0] + ' ' + c[s0:])
+            put(c[:m] + ' ' + c[m:])
+    for sign, digs, e, value in R.real_values([-3, 0, 4], [1, 5]):
+        for d in (0, 3):
+            for c in R.f_renderings(value, d):
+                put(c)
+    for t in ('*' * width, '*' * (width - 1), 'NaN', 'Infinity', '-Infinity', '+Inf', '12', '-7', '1 2'):
+        put(t)
+    return out
+
+
+def int_texts():
+    return ['1', '12', '-7', '+7', '1 2', '- 3', '99999', '*****', '0', '-0', ' 0 ']
+
+
+def build_incon(tier):
+    """-> (list of lines, list of blocks); a block = dict(name, line1, line2, cells) where cells maps
+    (record kind, field index) -> text of the cell.  Every text appears in each of the four variable positions of a
+    full line and as the LAST value of a line of 1, 2 and 3 variables."""
+    blocks = []
+
+    def name(i):
+        a = 'abcdefghijklmnopqrstuvwxyz'
+        q = i // 100
+        if q >= 26 ** 3:
+            raise core.HarnessError('too many blocks for distinct names')
+        return a[q // 676] + a[(q // 26) % 26] + a[q % 26] + '%2d' % (i % 100)
+
+    def add(vars_, por='', nseq='', nadd=''):
+        i = len(blocks)
+        l1 = name(i) + nseq.rjust(5) + nadd.rjust(5) + por.rjust(15)
+        l2 = ''.join(v.rjust(20) for v in vars_)
+        blocks.append({'name': name(i), 'line1': l1, 'line2': l2, 'vars': list(vars_), 'por': por, 'nseq': nseq, 'nadd': nadd})
+
+    for t in file_texts(tier, 20):
+        for p in range(4):
+            v = list(FILLER)
+            v[p] = t
+            add(v)
+        for p in range(3):
+            add(FILLER[:p] + [t])
+    for t in file_texts(tier, 15):
+        add(FILLER[:2], por=t)
+    for t in int_texts():
+        add(FILLER[:1], por='0.1000000E+00', nseq=t, nadd='    1'.strip())
+        add(FILLER[:1], por='0.1000000E+00', nseq='1', nadd=t)
+    # blank cells: inside a line (kept as None) and at its end (dropped)
+    add([FILLER[0], '', FILLER[2]])
+    add([FILLER[0], FILLER[1], '', ''])
+    lines = ['INCON']
+    for b in blocks:
+        lines += [b['line1'], b['line2']]
+    lines.append('')
+    return lines, blocks
+
+
+def build_incon_multiline(tier):
+    """Blocks of six variables (two lines, read with num_variables = 6): zeros and boundary texts at each position."""
+    texts = ZEROS + ['0.1D+01', '-.25-101', '1.5+100', '0.1E 05', '*' * 20]
+    texts = [t for t in texts if R.expect_real(t)[0] != R.ANY]
+    six = FILLER + ['0.1213000000000E+05', '0.1415000000000E+06']
+    blocks = []
+    for t in texts:
+        for p in range(6):
+            v = list(six)
+            v[p] = t
+            blocks.append(v)
+    lines = ['INCON']
+    for i, v in enumerate(blocks):
+        lines.append('c%s%2d' % ('abcdefghijklmnopqrstuvwxyz'[(i // 100) % 26] * 2, i % 100))
+        lines.append(''.join(x.rjust(20) for x in v[:4]))
+        lines.append(''.join(x.rjust(20) for x in v[4:]))
+    lines.append('')
+    return lines, blocks
+
+
+def own_reading(read_function, typ, text):
+    """What the object's own read function gives for the text of one cell (the definition of the route)."""
+    return read_function[typ](text)
+
+
+def canon(v):
+    if isinstance(v, float):
+        return 'nan' if v != v else repr(v)
+    try:
+        import numpy as np
+        if isinstance(v, np.ndarray):
+            return [canon(x) for x in v.tolist()]
+    except Exception:
+        pass
+    return repr(v)
+
+
+def strip_trailing_none(vals):
+    vals = list(vals)
+    while vals and vals[-1] is None:
+        vals.pop()
+    return vals
+
+
+def expected_block(b, rf, fortran):
+    """(variables, porosity, nseq, nadd) a reader with read function table rf must give for block b, and for the
+    Fortran readers the statement's own verdict on each cell text."""
+    cells = [v.rjust(20) for v in b['vars']] + [' ' * 20] * (4 - len(b['vars']))
+    vals = strip_trailing_none([own_reading(rf, 'e', c) for c in cells])
+    por = own_reading(rf, 'e', b['por'].rjust(15))
+    nseq = own_reading(rf, 'd', b['nseq'].rjust(5))
+    nadd = own_reading(rf, 'd', b['nadd'].rjust(5))
+    return vals, por, nseq, nadd
+
+
+def statement_problems(b):
+    """The direct readers against the C16 oracle on the cells of one block (guards the differential oracle against a
+    reader that is wrong everywhere)."""
+    out = []
+    f = fns()
+    for t in b['vars'] + [b['por']]:
+        j = R.judge_real(t, f['fortran_read_float'](t), None if not t.strip(' ') else _Never)
+        if j is not None:
+            out.append((t, j))
+    return out
+
+
+def first_diff(got, want):
+    cg, cw = [canon(x) for x in got], [canon(x) for x in want]
+    if len(cg) != len(cw):
+        return 'count'
+    for i, (a, c) in enumerate(zip(cg, cw)):
+        if a != c:
+            return i
+    return None
+
+
+def file_class(t):
+    """Coarse class of a cell text for file-route signatures."""
+    if not t.strip(' '):
+        return 'blank'
+    cls, val = R.expect_real(t)
+    if cls == R.VAL and val == 0:
+        return 'exact-zero'
+    try:
+        float(t)
+        return 'python-readable'
+    except ValueError:
+        return 'fortran-only-form' if cls == R.VAL else 'not-a-number'
+
+
+def block_class(b, idx):
+    t = b['vars'][idx] if isinstance(idx, int) and idx < len(b['vars']) else (b['vars'][-1] if b['vars'] else '')
+    return file_class(t)
+
+
+def child_t2incon(path, path6, seq):
+    """Runs in a forked child: t2incon(filename) with each reader of seq in turn.  -> list of results."""
+    import t2incons
+    import fixed_format_file as fff
+    tables = {'plain': fff.default_read_function, 'fortran': fff.fortran_read_function}
+    res = []
+    for which in seq:
+        for fname, nv in ((path, None), (path6, 6)):
+            if nv is not None and which == 'plain':
+                # texts the plain readers cannot read leave such a block short of num_variables: outside the contract
+                continue
+            try:
+                with core.timelimit(CHILD_LIMIT):
+                    with contextlib.redirect_stdout(io.StringIO()):
+                        if which == 'fortran-default-argument':
+                            inc = t2incons.t2incon(fname, num_variables=nv)
+                        else:
+                            inc = t2incons.t2incon(fname, read_function=tables[which], num_variables=nv)
+                blocks = [(blk.block, [canon(x) for x in blk.variable], canon(blk.porosity), canon(blk.nseq), canon(blk.nadd))
+                          for blk in inc._blocklist]
+                res.append((which, nv, 'ok', blocks))
+            except core.CaseTimeout:
+                res.append((which, nv, 'timeout', None))
+            except BaseException as e:
+                if isinstance(e, (KeyboardInterrupt, SystemExit)):
+                    raise
+                res.append((which, nv, 'raised', '%s: %s' % (type(e).__name__, e)))
+    return res
+
+
+CHILD_LIMIT = 60
+
+
+def in_child(fn, *args):
+    """fn(*args) in a forked child process (fresh history of opened files); result through a pipe."""
+    import pickle
+    import select
+    r, w = os.pipe()
+    pid = os.fork()
+    if pid == 0:
+        code = 0
+        try:
+            os.close(r)
+            data = pickle.dumps(('ok', fn(*args)))
+        except BaseException as e:
+            data = pickle.dumps(('err', '%s: %s' % (type(e).__name__, e)))
+            code = 1
+        try:
+            with os.fdopen(w, 'wb') as f:
+                f.write(data)
+        finally:
+            os._exit(code)
+    os.close(w)
+    chunks = []
+    deadline = 6 * CHILD_LIMIT + 60
+    import time as _t
+    t0 = _t.time()
+    with os.fdopen(r, 'rb') as f:
+        while True:
+            left = deadline - (_t.time() - t0)
+            if left <= 0:
+                os.kill(pid, 9)
+                os.waitpid(pid, 0)
+                return ('err', 'child did not finish')
+            ready, _, _ = select.select([f], [], [], min(left, 5))
+            if ready:
+                c = os.read(f.fileno(), 1 << 20)
+                if not c:
+                    break
+                chunks.append(c)
+    os.waitpid(pid, 0)
+    try:
+        return pickle.loads(b''.join(chunks))
+    except Exception as e:
+        return ('err', 'no result from child: %r' % (e,))
+
+
+def file_route(order, tier):
+    """-> (violations [(sig, what)], evaluations, distinct keys)."""
+    import copy
+    import fixed_format_file as fff
+    import t2incons
+    viol, keys = [], set()
+    n = 0
+    seen_sig = set()
+
+    def add(sig, what):
+        viol.append((sig, what))
+
+    lines, blocks = build_incon(tier)
+    lines6, blocks6 = build_incon_multiline(tier)
+    d = core.scratch()
+    path, path6 = os.path.join(d, 'c16_%s.incon' % order), os.path.join(d, 'c16_%s_6.incon' % order)
+    with open(path, 'w') as f:
+        f.write('\n'.join(lines) + '\n')
+    with open(path6, 'w') as f:
+        f.write('\n'.join(lines6) + '\n')
+    tables = {'plain': fff.default_read_function, 'fortran': fff.fortran_read_function}
+    seq = ['plain', 'fortran', 'plain'] if order == 'plain-first' else ['fortran', 'plain', 'fortran']
+
+    # the direct readers on the cell texts (statement oracle)
+    for b in blocks:
+        for t, j in statement_problems(b):
+            add('C16|fortran_read_float|%s|%s' % (j[0], R.input_class(t)),
+                'fortran_read_float(%r) returned a value that is not %s' % (t, j[1]))
+
+    # (a) fixed_format_file objects sharing ONE specification dictionary, opened in the given order, parsing in turn
+    spec = copy.deepcopy(t2incons.t2incon_format_specification)
+    _KEEP.append(spec)
+    parsers = []
+    for k, which in enumerate(seq):
+        parsers.append((which, 'nothing' if k == 0 else seq[k - 1] + '-reader',
+                        fff.fixed_format_file(path, 'r', spec, tables[which])))
+    try:
+        for b in blocks:
+            l1, l2 = b['line1'].ljust(80), b['line2'].ljust(80)
+            for which, after, prs in parsers:
+                rf = tables[which]
+                for kind, line, typs, widths in (('incon1', l1, 'sdde', (5, 5, 5, 15)), ('incon2', l2, 'eeee', (20,) * 4)):
+                    n += 1
+                    try:
+                        got = prs.parse_string(line, kind)
+                    except Exception as e:
+                        add('C16|parse_string(%s)|raises-%s|%s|after=%s' % (which, type(e).__name__, kind, after),
+                            'parse_string(%r, %r) raised %r' % (line, kind, e))
+                        continue
+                    pos, want, texts = 0, [], []
+                    for typ, w in zip(typs, widths):
+                        texts.append(line[pos:pos + w])
+                        want.append(own_reading(rf, typ, line[pos:pos + w]))
+                        pos += w
+                    dd = first_diff(got, want)
+                    if dd is not None:
+                        t = texts[dd] if isinstance(dd, int) else ''
+                        add('C16|parse_string(%s)|cell-value|%s|after=%s' % (which, file_class(t), after),
+                            '%s-reader parse_string of %r record gives %r for cell %r, its own read function gives %r '
+                            '(opened after: %s)' % (which, kind, got[dd] if isinstance(dd, int) else got, t,
+                                                    want[dd] if isinstance(dd, int) else want, after))
+            keys.add(hash(('T', b['line1'], b['line2'])))
+    finally:
+        for which, after, prs in parsers:
+            prs.close()
+
+    # (b) t2incon(filename) in a child process, the readers in the given order (plus the default-argument form)
+    st, res = in_child(child_t2incon, path, path6, seq + ['fortran-default-argument'])
+    if st != 'ok':
+        add('C16|t2incon|child-failed|%s' % order, 'reading in a child process failed: %s' % res)
+        return viol, n, keys
+    prev = 'nothing'
+    for which, nv, status, got in res:
+        kind = 'fortran' if which.startswith('fortran') else 'plain'
+        rf = tables[kind]
+        label = 't2incon(%s)' % kind
+        src = blocks if nv is None else blocks6
+        n += len(src)
+        if status == 'timeout':
+            add('C16|%s|does-not-terminate|num_variables=%s|after=%s' % (label, nv, prev),
+                'read of the file with num_variables=%r did not finish in %d s' % (nv, CHILD_LIMIT))
+        elif status == 'raised':
+            add('C16|%s|raises|num_variables=%s|after=%s' % (label, nv, prev), 'read raised %s' % got)
+        else:
+            if len(got) != len(src):
+                add('C16|%s|block-count|num_variables=%s|after=%s' % (label, nv, prev),
+                    '%d blocks read, file has %d' % (len(got), len(src)))
+            for gb, b in zip(got, src):
+                if nv is None:
+                    wv, wp, ws, wa = expected_block(b, rf, kind == 'fortran')
+                    bb = b
+                else:
+                    bb = {'vars': b}
+                    wv = strip_trailing_none([own_reading(rf, 'e', x.rjust(20)) for x in b])
+                    wp = ws = wa = None
+                cg, cw = gb[1], [canon(x) for x in wv]
+                if cg != cw:
+                    if len(cg) != len(cw):
+                        idx = len(bb['vars']) - 1
+                        clause = 'variable-count'
+                    else:
+                        idx = [i for i in range(len(cg)) if cg[i] != cw[i]][0]
+                        clause = 'variable-value'
+                    add('C16|%s|%s|%s|num_variables=%s|after=%s' % (label, clause, block_class(bb, idx), nv, prev),
+                        'block %r, variables line %r: read %r, the %s readers give %r'
+                        % (gb[0], ''.join(x.rjust(20) for x in bb['vars']), cg, kind, cw))
+                if nv is None and (gb[2], gb[3], gb[4]) != (canon(wp), canon(ws), canon(wa)):
+                    add('C16|%s|header-cell|%s|after=%s' % (label, file_class(b['por'] or b['nseq'] or b['nadd']), prev),
+                        'block %r, line %r: porosity/nseq/nadd read %r, the %s readers give %r'
+                        % (gb[0], b['line1'], (gb[2], gb[3], gb[4]), kind, (canon(wp), canon(ws), canon(wa))))
+        if nv == 6 or kind == 'plain':
+            prev = kind + '-reader'
+    for pth in (path, path6):
+        try:
+            os.remove(pth)
+        except OSError:
+            pass
+    return viol, n, keys
+
+
+_KEEP = []
+
+
+def run_T(order, tier, rec):
+    viol, n, keys = file_route(order, tier)
+    for sig, what in viol:
+        rec.violation(sig, what, {'kind': 'file', 'order': order, 'tier': tier, 'sig': sig})
+    rec.bulk(n, keys, outcome='file-cell')
+    rec.count('file_route_records', n)
+    lines, blocks = build_incon(tier)
+    rec.sample({'file_route': order, 'blocks': len(blocks), 'example_variables_line': blocks[5]['line2']})
+
+
 def run_unit(unit, tier, rec):
     kind = unit[0]
     if kind == 'B':
@@ -435,6 +836,8 @@ def run_unit(unit, tier, rec):
         run_S(unit[1], unit[2], tier, rec)
     elif kind == 'R':
         run_R(unit[1], unit[2], tier, rec)
+    elif kind == 'T':
+        run_T(unit[1], tier, rec)
     else:
         raise core.HarnessError('unknown unit %r' % (unit,))
 
@@ -449,6 +852,9 @@ def finalize(rec, tier):
 
 
 def replay(case):
+    if case.get('kind') == 'file':
+        viol, n, keys = file_route(case['order'], case['tier'])
+        return [(sig, what) for sig, what in viol if sig == case.get('sig', sig)]
     name, s, blank = case['fn'], case['s'], case.get('blank', 'sentinel')
     if name in ('fortran_read_float', 'fortran_read_int', 'dict_float', 'dict_int'):
         st, got = call(name, s, 'default')
